@@ -4,6 +4,7 @@ import re
 from analysis.facts import strip_generics
 from analysis.guards import dominating_conditions, has_cond, conditional_defs
 from analysis.pathinterp import enumerate_paths, path_calls, path_value
+from . import C05 as _C05, C08 as _C08
 
 EXPLANATION = (
     "Decided: (1) the option-name -> NetworkFilterOption variant -> mask bit -> request-type chain, "
@@ -69,6 +70,13 @@ def check(run):
         run.guard("C03.4.unsupported-schemes", cfg, lambda: rule_unsupported(run, F, cfg))
         run.guard("C03.5.domain-hashing", cfg, lambda: rule_domains(run, F, cfg))
         run.guard("C03.6.scheme-patterns", cfg, lambda: rule_scheme_patterns(run, F, cfg))
+        run.guard("C03.7.option-split", cfg, lambda: rule_option_split(run, F, cfg))
+        b = run.borrow("C05", only=r"field:(mask|opt_domains|opt_not_domains)\b|key:",
+                       why="rules whose options differ must not be fused into one")
+        run.guard("C03.via.C05.1.fusion-key", cfg, lambda: _C05.rule_key(b, F, cfg))
+        b2 = run.borrow("C08", only=r"NetworkFilter\.(mask|opt_domains|opt_not_domains|opt_domains_union|opt_not_domains_union)\b",
+                        why="the option fields must survive serialize/deserialize unchanged")
+        run.guard("C03.via.C08.1.state-coverage", cfg, lambda: _C08.rule_coverage(b2, F, cfg))
 
 
 def option_arms(F):
@@ -395,3 +403,33 @@ def rule_scheme_patterns(run, F, cfg):
         run.ob("C03.6.scheme-patterns", f"pattern:|{lit}", got.get(lit) == w,
                f"a rule whose whole pattern is `|{lit}` sets the scheme bits {got.get(lit)} (expected {w}): the rule "
                f"then applies exactly to requests of that scheme", site=p.loc(0), config=cfg)
+
+
+def rule_option_split(run, F, cfg):
+    """`name=value`: the value is everything after the FIRST '=' (csp directives, removeparam regexes and
+    redirect names may contain '=' themselves); options are separated by ',' and domain values by '|'."""
+    f = F.fn("filters::abstract_network::parse_filter_options")
+    run.touched(f)
+    seps = {}
+    for g in [f] + F.closures_of(f.name):
+        for b, t in g.calls(r"^core::str::<impl str>::(split|splitn|rsplit|rsplitn|split_once|rsplit_once|split_terminator)$"):
+            kind = t["callee"].rsplit("::", 1)[1]
+            args = [g.expr_operand(a) for a in t["args"]]
+            seps.setdefault(args[-1], []).append((kind, args, g.loc(b)))
+    eq = seps.get("'='", [])
+    ok = len(eq) == 1 and ((eq[0][0] == "splitn" and eq[0][1][1] == "2") or eq[0][0] == "split_once")
+    run.ob("C03.7.option-split", "value-after-first-equals", ok,
+           "parse_filter_options splits `name=value` once, at the first '=' (splitn(2, '=') / split_once('=')): "
+           f"found {[(k, a[1:]) for k, a, l in eq]}", site=eq[0][2] if eq else f.loc(0), config=cfg)
+    if ok and eq[0][0] == "splitn":
+        # name = first next(), value = second next() of that iterator (unwrap_or_default)
+        nx = [f.expr_call(t) for b, t in f.calls(r"SplitN<.*Iterator>::next$|SplitN.*::next$")]
+        run.ob("C03.7.option-split", "name-then-value", len(nx) == 2,
+               f"the SplitN iterator is advanced exactly twice (name, then the rest as value): {len(nx)} next() calls",
+               config=cfg)
+    comma = seps.get("','", [])
+    run.ob("C03.7.option-split", "options-by-comma", len(comma) == 1 and comma[0][0] == "split",
+           f"the option list is split at every ',' ({[(k) for k, a, l in comma]})", config=cfg)
+    bar = seps.get("'|'", [])
+    run.ob("C03.7.option-split", "domains-by-bar", len(bar) >= 1 and all(k == "split" for k, a, l in bar),
+           f"domain / method values are split at every '|' ({[(k) for k, a, l in bar]})", config=cfg)
